@@ -254,7 +254,13 @@ package unmarshal
 
 // ---------------------------------------------------------------- single-entry decoders
 
+// One Datadog log entry: every field that becomes a label or the row is the entry's
+// own - the decoder starts each array element with all of them cleared (an entry
+// without source_type must not inherit the one of the entry before it).
+//@ func (*datadogRequestDec).Decode$1 [C03]
+//@   flag checks=-index,-assert
 //@ func (*datadogRequestDec).DecodeEntry [C03]
+//@   requires entry-starts-clear: d.Source == "" && len(d.Tags) == 0 && d.Hostname == "" && d.Message == "" && d.Service == "" && d.TsMs == 0 && d.SourceType == ""
 //@   loop 1:
 //@     modifies d.Tags
 //@ func (*influxDec).Decode [C03]
